@@ -140,4 +140,16 @@ theorem C13_stale_tmp_ignored (rj : Bool) (mc : Nat) (fs : FS) (t : Option Bytes
     Snap.openOn rj mc { fs with tmp := t } = Snap.openOn rj mc fs ∧ recover rj { fs with tmp := t } = recover rj fs := by
   simp [Snap.openOn, recover, hd]
 
+/-- **rejoin-after-leave off, with a stale temp file**: after ANY life containing a graceful leave, and whatever
+a failed compaction may have left in `<path>.compact` (`t`), the restart re-joins nobody. -/
+theorem C13_no_rejoin_stale_tmp_partial (ord : Order) (hord : PermOrder ord) (mc : Nat) (pre post : List Ev) (clk : Nat)
+    (hwf : ∀ e ∈ pre ++ (Ev.leave :: post), WFEv e) (t : Option Bytes) :
+    (recover false { FS.applyAll {} (life ord false mc {} (pre ++ (Ev.leave :: post)) clk).2 with tmp := t }).alive = [] := by
+  have hr := run_inv ord hord (pre ++ (Ev.leave :: post)) (Snap.init false mc).1 _ hwf (init_inv false mc)
+  obtain ⟨d, hd, _⟩ := (shutdown_inv ord hord _ _ clk hr.1).1
+  have hmain : (FS.applyAll {} (life ord false mc {} (pre ++ (Ev.leave :: post)) clk).2).main = some d := by
+    rw [life_fresh_fs]; exact hd
+  rw [(C13_stale_tmp_ignored false mc _ t d hmain).2]
+  exact C13_no_rejoin_partial ord hord mc pre post clk hwf
+
 end SerfProofs.C13
